@@ -188,6 +188,28 @@ class C14(PropBase):
                 self.fail(rep, f"reader display: separator width {len(lines[1])} != header width {len(header)}", {"ops": ops})
                 return
             rep.nontriv(("reader-display", spec))
+        # the same through the built binary, so that the options take the way a user's take (clap): no -i at all means all five
+        # groups, an empty -i none, several -i add up
+        cli = core.build_cli(False)
+        a1 = 0x480180
+        frames = [F.df11(5, a1, 0), F.df17(5, a1, F.me_ident(4, 3, F.callsign_codes("CLI1"))), F.df5(0, 0, 0, F.id13_of_squawk(1, 2, 3, 4), a1)]
+        for argv, given in (([], "aAews"), (["-i", ""], ""), (["-i", "a", "-i", "w"], "aw"), (["-i", "ews"], "ews"), (["--display-info=A"], "A"),
+                            (["-i", "x"], ""), (["-i", "", "-i", "s"], "s"), (["--display-info", "we", "-i", "e"], "we")):
+            rc, screens, err = core.cli_screens(cli, argv, frames, run.dir)
+            rep.evaluations += 1
+            tables = [sc for sc in screens if sc and _re.match(r"\s*ICAO +RG ", sc[0])]
+            if rc != 0 or not tables:
+                self.fail(rep, f"squitterator {' '.join(argv)!r}: exit status {rc}, {len(tables)} tables printed ({err[-200:]!r})", {"ops": [], "cli_args": argv})
+                return
+            header = tables[-1][0]
+            present = {n for n, _, _ in RC.header_cells(header)}
+            for letter, cols in (("A", ["ALT G", "ALT S", "BARO"]), ("s", ["TAS", "IAS", "MACH"]), ("a", ["RLL", "TAR"]),
+                                 ("w", ["TEMP", "WND", "WDR", "HUM", "PRES", "TB"]), ("e", ["VX", "DF", "TC", "V", "S", "PTH"])):
+                if (letter in given) != all(c in present for c in cols) or (letter not in given and any(c in present for c in cols)):
+                    self.fail(rep, f"squitterator {' '.join(repr(x) for x in argv)}: group {letter!r} {'missing from' if letter in given else 'present in'} the table (header {header!r})",
+                              {"ops": [], "cli_args": argv, "header": header, "frames": frames})
+                    return
+            rep.nontriv(("cli-display", tuple(argv)))
         # every refresh the reader prints is: header, separator, exactly one line of the header's width per aircraft then in the
         # table, separator - also when the table is empty at that refresh (retention periods 0 and negative empty it at every sweep)
         for da in (600, 1, 0, -5):
